@@ -36,6 +36,7 @@ type BoundedCheck struct {
 	Func    string `json:"func"`    // scenario selector understood by the harness
 	// filled in at run time
 	Evaluations int    `json:"evaluations"`
+	Budget      int    `json:"cases_requested"` // generated cases requested in this run (quick: as in bound; thorough: ten times)
 	Violation   string `json:"violation,omitempty"`
 }
 
@@ -204,7 +205,12 @@ func cmdCheck(args []string) {
 		if !ok {
 			continue
 		}
-		req := map[string]interface{}{"obligation": "", "func": b.Func, "seed": seed, "budget": 300}
+		budget := 300
+		if *tier == "thorough" {
+			budget = 3000 // ten times the generated cases of the quick tier (the stated bound is the quick one)
+		}
+		b.Budget = budget
+		req := map[string]interface{}{"obligation": "", "func": b.Func, "seed": seed, "budget": budget}
 		out, text, err := runHarness(h, req, "bounded-"+sanitize(b.Name))
 		if err != nil {
 			// a stand-in that cannot run has checked nothing: reported, never passed over silently
@@ -393,6 +399,14 @@ func writeEvidence(pc *PropConfig, tier string, seed int, res *propResult, wall 
 		cov["known_finding_obligations"] = knownObls
 		cov["explanation"] = "obligations = verification conditions generated for this property from /repo's working tree in this run, minus those attributed to an open known finding (known_finding_obligations, reported by a KNOWN-FINDING line); discharged = those answered unsat by a solver (or closed by the simplifier / satisfiable canaries)"
 		cov["discharged_by_backend"] = res.bySolver
+		// the slowest obligations of this run (a query near the per-obligation budget is the unstable kind)
+		slow := append([]*Obligation(nil), res.relevant...)
+		sort.Slice(slow, func(i, j int) bool { return slow[i].Time > slow[j].Time })
+		var slowest []map[string]interface{}
+		for i := 0; i < len(slow) && i < 5; i++ {
+			slowest = append(slowest, map[string]interface{}{"obligation": slow[i].Name, "seconds": round3(slow[i].Time), "solver": slow[i].Solver})
+		}
+		cov["slowest_obligations"] = slowest
 		cov["obligations_by_kind"] = kinds
 		cov["solver_seconds"] = round3(res.solverTime)
 		cov["load_seconds"] = round3(res.loadSecs)
